@@ -1,10 +1,15 @@
 import Nstd.Hash.LemmasStep
+import Nstd.Hash.PtrStep
 /-
   Property C02: HashMap / HashSet / PoolMap behave as insertion-ordered unique-key tables.
 
   Model: `Nstd/Hash/Model.lean` (bucket chains stored per bucket, push-front; items remember their
   cell; free list and 4-item blocks; order list of item ids; lazily allocated bucket array).
   Specification: `Nstd/Hash/Spec.lean` (association list, positions as iterators).
+  Pointer-level model: `Nstd/Hash/PtrModel.lean` (the C++ statements one by one: `cell` back-pointers, `nextCell`
+  chains, `prev`/`next` order list closed by the end sentinel of the owning object, free list through `prev`,
+  `swap` re-anchoring the sentinel); section "pointer level" below proves that it is simulated by the
+  chain-list model, hence refines the specification as well.
   All theorems quantify over the container kind, EVERY hash function `h : Nat → Nat` (hence every
   collision pattern, including all keys in one bucket), every capacity (the `construct t cap` op takes
   any number; `0` becomes `1` as in the code) and every op list.
@@ -194,6 +199,125 @@ theorem hash_string_total (s : List Nat) (len : Nat) (hs : s.length = len + 1) :
   simp only [hashString, List.getElem?_eq_getElem h0, List.getElem?_eq_getElem h1, List.getElem?_eq_getElem h2]
   rfl
 
+/-! ### pointer level -/
+
+open Ptr in
+/-- every run of the pointer-level model is matched step by step by the chain-list model: same results, coupled states
+    (`PRel`: every bucket chain of the pointer heap is the stored chain list and every `cell` designates the referring
+    cell; the `next`/`prev` list from `begin` to the OWN end sentinel is the order list, `endItem.prev` its last item;
+    the free list along `prev` is the stored free list; keys and values agree), and the invariant; it is rejected
+    (a fault: out of fuel, foreign sentinel, invalid iterator) iff the chain-list model rejects -/
+theorem ptr_simulated (kind : Kind) (h : Nat → Nat) (ops : List Op) (ps : PState) (s : State)
+    (hp : PRel ps s) (hs : SInv h s) :
+    match prun kind h ps ops, run kind h s ops with
+    | some (ps', os), some (s', os') => os = os' ∧ PRel ps' s' ∧ SInv h s'
+    | none, none => True
+    | _, _ => False := by
+  induction ops generalizing ps s with
+  | nil => exact ⟨rfl, hp, hs⟩
+  | cons op ops ih =>
+    have h1 := pstep_sim kind h ps s op hp hs
+    have h2 := (step_refines kind h s op hs).2
+    simp only [prun, run]
+    unfold StepSim at h1
+    cases hps : pstep kind h ps op with
+    | none =>
+      rw [hps] at h1
+      cases hst : step kind h s op with
+      | none => trivial
+      | some r => rw [hst] at h1; exact False.elim h1
+    | some pr =>
+      rw [hps] at h1
+      cases hst : step kind h s op with
+      | none => rw [hst] at h1; exact False.elim h1
+      | some r =>
+        rw [hst] at h1
+        obtain ⟨ps1, o⟩ := pr
+        obtain ⟨s1, o'⟩ := r
+        simp only at h1 ⊢
+        have ih' := ih ps1 s1 h1.2 (h2 s1 o' hst)
+        cases hpr : prun kind h ps1 ops with
+        | none =>
+          rw [hpr] at ih'
+          cases hr : run kind h s1 ops with
+          | none => trivial
+          | some r2 => rw [hr] at ih'; exact False.elim ih'
+        | some pr2 =>
+          rw [hpr] at ih'
+          cases hr : run kind h s1 ops with
+          | none => rw [hr] at ih'; exact False.elim ih'
+          | some r2 =>
+            rw [hr] at ih'
+            obtain ⟨ps2, os⟩ := pr2
+            obtain ⟨s2, os'⟩ := r2
+            simp only at ih' ⊢
+            exact ⟨by rw [h1.1, ih'.1], ih'.2⟩
+
+open Ptr in
+/-- C02 at pointer level: for every hash function, container kind and op list the pointer-level model started with two
+    default-constructed tables yields exactly the results of the association-list specification and never faults
+    on an op list the specification accepts -/
+theorem ptr_refines (kind : Kind) (h : Nat → Nat) (ops : List Op) :
+    (prun kind h pinit ops).map (fun r => r.2) = (Spec.run kind Spec.init ops).map (fun r => r.2) := by
+  have h1 := ptr_simulated kind h ops pinit init pinit_rel (init_inv h)
+  have h2 := refines kind h ops
+  rw [← h2]
+  cases hp : prun kind h pinit ops with
+  | none =>
+    rw [hp] at h1
+    cases hr : run kind h init ops with
+    | none => rfl
+    | some r => rw [hr] at h1; exact absurd h1 id
+  | some pr =>
+    rw [hp] at h1
+    cases hr : run kind h init ops with
+    | none => rw [hr] at h1; exact absurd h1 id
+    | some r =>
+      rw [hr] at h1
+      simp only [Option.map_some, Option.some.injEq]
+      exact h1.1
+
+open Ptr in
+/-- structure of every reachable pointer-level table: there are id lists (`chain b`, `order`, `free`) such that every bucket
+    chain is a `nextCell` list whose `cell` back-pointers designate the referring cells, holds exactly the live items whose
+    key hashes to the bucket, each once; the `next`/`prev` list is closed by the table's own sentinel; iteration along `next`
+    ends within `size` steps; live and free items are disjoint -/
+theorem ptr_structure (kind : Kind) (h : Nat → Nat) (ops : List Op) (ps' : PState) (outs : List Out)
+    (hr : prun kind h pinit ops = some (ps', outs)) (t : Bool) :
+    ∃ (chain : Nat → List Nat) (order free : List Nat),
+      ((ps'.get t).allocated = true → ∀ b, Chain (ps'.get t).items b ((ps'.get t).heads b) (chain b) ∧ (chain b).Nodup ∧
+        ∀ id, id ∈ chain b ↔ (id ∈ order ∧ h ((ps'.get t).items id).key % (ps'.get t).cap = b)) ∧
+      Dll (ps'.get t).items t (ps'.get t).begin order ∧ (ps'.get t).self = t ∧
+      (ps'.get t).order = some order ∧ (ps'.get t).size = order.length ∧ (ps'.get t).endPrev = order.getLast? ∧
+      FreeL (ps'.get t).items (ps'.get t).freeItem free ∧ (∀ id ∈ free, id ∉ order) ∧
+      (order.map (fun id => ((ps'.get t).items id).key)).Nodup ∧ 0 < (ps'.get t).cap := by
+  have h1 := ptr_simulated kind h ops pinit init pinit_rel (init_inv h)
+  rw [hr] at h1
+  cases hrun : run kind h init ops with
+  | none => rw [hrun] at h1; exact absurd h1 id
+  | some r =>
+    rw [hrun] at h1
+    obtain ⟨s', os'⟩ := r
+    simp only at h1
+    have hrel := (h1.2.1.get t).1
+    have hself := (h1.2.1.get t).2
+    have hi := h1.2.2.get t
+    refine ⟨(s'.get t).data, (s'.get t).order, (s'.get t).free, ?_, ?_, hself, hrel.order_eq hi, ?_, hrel.endPrev_eq,
+      hrel.free, hi.free_disj, ?_, ?_⟩
+    · intro ha b
+      have ha' : (s'.get t).allocated = true := by rw [← hrel.alloc]; exact ha
+      refine ⟨hrel.chains ha' b, hi.chain_nodup ha' b, fun id => ?_⟩
+      rw [hi.chain_iff ha' b id, hrel.cap, (hrel.kv id).1]
+      constructor
+      · intro ⟨m, c⟩; exact ⟨m, by rw [← hi.cell_eq id m]; exact c⟩
+      · intro ⟨m, c⟩; exact ⟨m, by rw [hi.cell_eq id m]; exact c⟩
+    · have := hrel.order; rw [hself] at this; exact this
+    · rw [hrel.size, hi.size_eq]
+    · have : (fun id => ((ps'.get t).items id).key) = (fun id => ((s'.get t).items id).key) := by
+        funext id; exact (hrel.kv id).1
+      rw [this]; exact hi.keys_nodup
+    · rw [hrel.cap]; exact hi.cap_pos
+
 /-! ### non-vacuity: the hypotheses are met by non-trivial states, the runs are not all rejected -/
 
 /-- three keys in ONE bucket of a capacity-1 HashMap, removal from the middle of the chain, reinsertion (recycled item),
@@ -212,6 +336,16 @@ example : ∃ t : Table, t.Inv (fun _ => 7) ∧ (t.data 0).length = 3 ∧ 2 ∈ 
   have hi := (((construct_inv (fun _ => 7) 1).insert Kind.set 0 1 0 (Nat.zero_le _)).1.insert Kind.set 0 2 0 (Nat.zero_le _)).1.insert
     Kind.set 0 3 0 (Nat.zero_le _)
   exact ⟨_, hi.1, by decide, by decide⟩
+
+/-- the same history on the pointer-level model -/
+example :
+    (Ptr.prun Kind.map (fun _ => 7) Ptr.pinit
+      [.construct false 1, .append false 5 50, .append false 6 60, .prepend false 4 40, .removeKey false 5,
+       .insert false 1 9 90, .append false 6 61, .find false 6, .swap false, .iterate true, .equal false true]).map
+      (fun r => r.2)
+    = some [.unit, .num 50, .num 60, .num 40, .unit, .num 1, .num 61, .onum (some 2), .unit,
+            .entries [(4, 40), (9, 90), (6, 61)], .flag false] := by
+  decide
 
 example : hashStringReads 0 = [0, 0, 0] ∧ hashStringReads 5 = [0, 2, 4] := by decide
 
